@@ -17,6 +17,11 @@
 (*                                 raises SecurityError at once            *)
 (*     Run(f, arg)                 the callable runs (container methods    *)
 (*                                 act on `data` as SandboxData says)      *)
+(* an environment may serve several renders (conf.multi):                  *)
+(*     NewRender                   the previous render is over (finished   *)
+(*                                 or failed); the next one starts with no *)
+(*                                 verdict standing: a grant is good for   *)
+(*                                 one call of one render                  *)
 (* every arithmetic operator application is                                *)
 (*     OpHook(op, l, r) | NativeOp(op, l, r)                               *)
 (* and the template may Use(v) any value it was handed.                    *)
@@ -36,9 +41,10 @@ CONSTANTS
     Confs,        \* model checking: set of configurations
                   \*   [env |-> "sandbox" | "immutable",
                   \*    impl |-> "abstract" | "operational" | "legacy"   (which gate decides),
-                  \*    policy |-> "default" | "denyname" | "denyobj",
-                  \*    icept |-> set of intercepted operators ("u-" / "u+" = the unary ones)]
-    MaxSteps,     \* model checking: number of Fetch / operator steps explored
+                  \*    policy |-> "default" | "denyname" | "denyobj" | "denyrecv",
+                  \*    icept |-> set of intercepted operators ("u-" / "u+" = the unary ones),
+                  \*    multi |-> whether the environment serves more than one render]
+    MaxSteps,     \* model checking: number of Fetch / operator / NewRender steps explored
     ModelKinds,   \* model checking: object kinds the adversary pokes at
     ModelOps      \* model checking: operators the adversary applies
 
@@ -141,6 +147,18 @@ Run(f, newdata) ==
     /\ changed' = changed \cup {k \in ContainerKinds : newdata[k] # data[k]}
     /\ UNCHANGED <<conf, pend, tainted, handed, used, hookLog, apps, outcome, steps>>
 
+(* -- the environment outlives the render ----------------------------------------- *)
+(* The application renders again with the same environment (and, possibly, the same
+   objects: `handed` stays).  Whatever the gate said during earlier renders is void:
+   every call of the new render needs its own CallGate. *)
+NewRender ==
+    /\ conf.multi
+    /\ pend' = NoPend
+    /\ granted' = {}
+    /\ outcome' = "none"
+    /\ steps' = steps + 1
+    /\ UNCHANGED <<conf, tainted, handed, used, ran, data, changed, hookLog, apps>>
+
 (* -- operators ------------------------------------------------------------------ *)
 OpHook(op, l, r) ==
     /\ Running
@@ -171,7 +189,7 @@ ModelNames ==
      Nm("ag_frame", "a", "g"), Nm("ag_code", "a", "g"), Nm("gi_running", "g", "i"),
      Nm("co_consts", "c", "o"), Nm("f_locals", "f", "_"), Nm("tb_frame", "t", "b"),
      Nm("format", "f", "o"), Nm("run", "r", "u"), Nm("delete", "d", "e"),
-     Nm("save", "s", "a"), Nm("denied", "d", "e")}
+     Nm("save", "s", "a"), Nm("denied", "d", "e"), Nm("locked", "l", "o")}
 
 (* a public method name: by definition it does not start with an underscore, so the
    two prefix characters carry no information ("a" stands for any letter) *)
@@ -187,9 +205,10 @@ Val(kind, a, how) == <<kind, a.n, how>>
 (* what a handed value is when called *)
 IsCallableVal(v) ==
     \/ v[1] \in ContainerKinds /\ v[3] = "attr" /\ v[2] \in Methods(v[1]) \ DataAttrs(v[1])
-    \/ v[2] \in {"run", "delete", "save", "denied"}
+    \/ v[2] \in {"run", "delete", "save", "denied", "locked"}
+(* "denied" is on the deny list of the identity policy; "locked" is a method of a frozen receiver *)
 CallableOf(v) == [id |-> v, unsafe |-> (v[2] = "delete"), alters |-> (v[2] = "save"), name |-> v[2],
-                  denied |-> (v[2] = "denied")]
+                  denied |-> (v[2] = "denied"), recv |-> (v[2] = "locked")]
 
 MFetch ==
     \/ \E kind \in ModelKinds : \E a \in NamesOf(kind) :
@@ -211,9 +230,11 @@ MOp ==
     \E op \in ModelOps : \E l, r \in {1, 2} :
           steps < MaxSteps /\ (OpHook(op, l, r) \/ NativeOp(op, l, r))
 MRaise == Raise("SecurityError")
+MNewRender == steps < MaxSteps /\ NewRender
 
 NextModel ==
     MFetch \/ MGate \/ Deliver \/ DeliverUndefined \/ MUse \/ MCallGate \/ MRun \/ MOp \/ MRaise
+    \/ MNewRender
 
 Spec == conf \in Confs /\ InitGate /\ [][NextModel]_vars
 
